@@ -458,6 +458,24 @@ def run(ctx: Ctx) -> Outcome:
         events.append({"ev": "accessor", "expect": show(expected_unwrap(o)), "got": "raised" if a == "raised" else show(a),
                        "again": "raised" if b == "raised" else show(b)})
         meta.append({"p": "unwrap", "obj": n, "exc": exc or ""})
+    # resolve_supertype(): follows __supertype__ to its end, whatever is found there (None, written as a NewType's supertype, is
+    # an end like any other: "no supertype" is told by the attribute's absence, not by its value)
+    def chain_end(o):
+        for _ in range(12):
+            if not hasattr(o, "__supertype__"):
+                break
+            o = o.__supertype__
+        return o
+    NTnone = typing.NewType("NTnone", None); NTNTnone = typing.NewType("NTNTnone", NTnone)
+    NTzero = typing.NewType("NTzero", typing.Literal[0]); NTopt = typing.NewType("NTopt", typing.Optional[int])
+    extra = [("NewType(None)", NTnone), ("NewType(NewType(None))", NTNTnone), ("NewType(Literal[0])", NTzero), ("NewType(Optional[int])", NTopt)]
+    for n, o in [(n, objs[n][0]) for n in names if hasattr(objs[n][0], "__supertype__")] + extra:
+        clear_typelib_caches()
+        a, exc = ask(inspection.resolve_supertype, o)
+        b, _ = ask(inspection.resolve_supertype, o)
+        events.append({"ev": "accessor", "expect": show(chain_end(o)), "got": "raised" if a == "raised" else show(a),
+                       "again": "raised" if b == "raised" else show(b)})
+        meta.append({"p": "resolve_supertype", "obj": n, "exc": exc or ""})
     # name / qualname against the runtime's own attributes; ishashable / isproperty / isdescriptor over an instance pool
     import functools
     for n in names:
